@@ -2,6 +2,7 @@
 from engines import mutsim
 PROPERTY = "C14"
 ENGINE = "gridsim/mut"
+SPIN_IS_VIOLATION = True   # the property promises an outcome: an operation that never returns to the reactor violates it
 LEVEL = "exploration"
 COUNTS = {"quick": 500, "thorough": 10000}
 CHUNK = 25
